@@ -76,9 +76,16 @@ impl BetTable {
     ) -> Result<Self> {
         reader.seek(SeekFrom::Start(offset))?;
 
-        // Read the compressed/encrypted data
-        let mut data = vec![0u8; compressed_size as usize];
-        reader.read_exact(&mut data)?;
+        // Read the compressed/encrypted data. The size comes from the archive header: read up to
+        // it instead of allocating it up front
+        let mut data = Vec::new();
+        reader
+            .by_ref()
+            .take(compressed_size)
+            .read_to_end(&mut data)?;
+        if data.len() as u64 != compressed_size {
+            return Err(std::io::Error::from(std::io::ErrorKind::UnexpectedEof).into());
+        }
 
         // Check if we have at least the extended header (12 bytes)
         if data.len() < 12 {
